@@ -134,15 +134,30 @@ def props_obligations(pid):
     """Re-compile Props/<pid>.v and read what it proves.  Returns dict with
     obligations (Theorems stated), discharged (those whose Print Assumptions is
     closed), names, axioms seen, log."""
-    v = "Props/%s.v" % pid
-    if not os.path.exists(os.path.join(COQ, v)):
-        return {"file": "coq/" + v, "names": [], "obligations": 0, "discharged": 0, "axioms": [], "ok": False,
-                "log": "missing " + v, "missing_print": []}
+    files = sorted(glob.glob(os.path.join(COQ, "Props", pid + ".v")) + glob.glob(os.path.join(COQ, "Props", pid + "_*.v")))
+    if not files:
+        return {"file": "coq/Props/%s.v" % pid, "names": [], "obligations": 0, "discharged": 0, "axioms": [], "ok": False,
+                "log": "missing Props/%s.v" % pid, "missing_print": []}
+    tot = {"file": ", ".join("coq/Props/" + os.path.basename(f) for f in files), "names": [], "obligations": 0, "discharged": 0,
+           "axioms": [], "ok": True, "log": "", "missing_print": []}
+    for f in files:
+        r = _props_file("Props/" + os.path.basename(f), pid)
+        tot["names"] += r["names"]
+        tot["obligations"] += r["obligations"]
+        tot["discharged"] += r["discharged"]
+        tot["axioms"] += r["axioms"]
+        tot["ok"] = tot["ok"] and r["ok"]
+        tot["log"] += r["log"] if not r["ok"] else ""
+        tot["missing_print"] += r["missing_print"]
+    return tot
+
+
+def _props_file(v, pid):
     src = strip_comments(open(os.path.join(COQ, v)).read())
     names = re.findall(r"^\s*(?:Theorem|Corollary)\s+(\w+)", src, re.M)
     printed = re.findall(r"Print Assumptions\s+(\w+)", src)
-    tmp = workdir("props_" + pid)
-    rc, out = sh("coqc -R . Verif -o %s %s" % (os.path.join(tmp, pid + ".vo"), v), cwd=COQ, timeout=900)
+    tmp = workdir("props_" + pid + "_" + os.path.basename(v))
+    rc, out = sh("coqc -R . Verif -o %s %s" % (os.path.join(tmp, os.path.basename(v) + "o"), v), cwd=COQ, timeout=900)
     res = {"file": "coq/" + v, "names": names, "obligations": len(names), "discharged": 0, "axioms": [],
            "ok": rc == 0, "log": out[-4000:], "missing_print": [n for n in names if n not in printed]}
     if rc != 0:
